@@ -371,11 +371,13 @@ def run(ctx):
         res = [panic_inventory(c, ctx.syn), validated_rule(c), unknown_key_rule(c), diagnostics_rule(c, ctx.syn)]
         if fs == "default":
             res.append(matrix_rule(ctx.syn))
+            from rules import templates as T
+            res.append(T.impl_header_rule(ctx.syn, "C16"))
         for r in res:
             if fs != "default":
                 r.rule += "@" + fs
         out += res
     if ctx.tier == "thorough":
         from vlib import witness
-        out.append(witness.rule("C16", ['OptionalNeedsOption', 'OptionalNullableNeedsOption', 'UnknownKeysRejected', 'IncompatibleCombinationsRejected', 'UnsupportedItemRejected', 'UnusualIdentifiersExpand'], "C16.R6"))
+        out.append(witness.rule("C16", ['OptionalNeedsOption', 'OptionalNullableNeedsOption', 'UnknownKeysRejected', 'IncompatibleCombinationsRejected', 'UnsupportedItemRejected', 'UnusualIdentifiersExpand', 'DefaultedGenericsExpand'], "C16.R6"))
     return out
